@@ -63,7 +63,7 @@ theorem inv_job_install {cfg : Cfg} {s : St} {d : Disk} (h : Inv cfg s d) {j : J
   have hmfd' : MfdOK (s.upd j' s.nextFile (applyEdit s.live e) (e.jn.getD s.stJn) (e.sq.getD s.stSq)
       s.manifestFd s.manifestOpen) d := MfdOK.of_fd (j := j') rfl hpc' hfd
   have hnbc : j'.pc.beforeCommit = true → False := by intro hb'; rw [hl] at hb'; cases hb'
-  have hk'post : j'.pc.beforeCommit = false := by rw [hl]; rfl
+  have hk'post : j'.pc.uninstalled = false := by rw [hl]; rfl
   -- the journals to remove lie below the journal number of the new view
   have hnxv : ∀ n ∈ l, n < v.jn := by
     intro n hn
